@@ -14,7 +14,7 @@ CFG = {
                           "RpmVerif.C17.default_level_in_range", "RpmVerif.C17.default_of_every_type", "RpmVerif.C17.default_is_some_variant",
                           "RpmVerif.C17.step_total", "RpmVerif.C17.run_total", "RpmVerif.C17.build_total", "RpmVerif.C17.build_and_sign_total",
                           "RpmVerif.C17.build_total_needs_clock", "RpmVerif.C17.comp_variant_table",
-                          "RpmVerif.C17.run_keeps_threshold", "RpmVerif.C17.large_file_switch"],
+                          "RpmVerif.C17.run_keeps_threshold", "RpmVerif.C17.large_file_switch", "RpmVerif.C17.build_ok_is_model_build"],
     "trivial_branches": ["bad-start", "ts:unrepresentable", "meta:nul"],
     "rule": "ALL destinations over the alphabet {'/', '.', 'a'} up to length 8 (quick, 9 841 strings) / 11 (thorough, 265 720), all token strings over "
             "{'/', '.', '..', 'a', 'b.c'} up to 5 / 7 tokens, the former panic witnesses, long (5 000-byte names, 2 000 levels, 3 000 slashes), multi-byte, "
@@ -68,7 +68,7 @@ CFG = {
                   "create_region_tag and Timestamp::now): step_total / run_total — no call panics except the two timestamp conversions; build_total — new(..).<any calls>.build() never "
                   "panics provided no out-of-range instant reaches a timestamp setter, the clock is inside 1970..2106, the codecs do not panic, fewer than 2^32 − 1 files / 2^64 bytes are "
                   "added and the large-file limit is at most u32::MAX; the sites `position(..).unwrap()` and the two `expect`s are unreachable because every call sequence leaves each "
-                  "file's directory registered and size = content length (Build.Inv); large_file_switch: after any call sequence uses_large_files is exactly 'the CONTENTS sum to more than u32::MAX bytes' and otherwise the combined size and every single size fit a u32; build_and_sign_total adds the signer; build_total_needs_clock: with the clock outside 1970..2106 the "
+                  "file's directory registered and size = content length (Build.Inv); large_file_switch: after any call sequence uses_large_files is exactly 'the CONTENTS sum to more than u32::MAX bytes' and otherwise the combined size and every single size fit a u32; build_ok_is_model_build: an Ok of build() into an all-accepting compressor is Bld.build (the total model of C06 – C09) with Cpio.builderArchive / builderArchiveLarge as the archive; build_and_sign_total adds the signer; build_total_needs_clock: with the clock outside 1970..2106 the "
                   "plainest build panics (model-only site). PARTIAL: build_args_total_partial needs the hypothesis that no out-of-range instant reaches "
                   "source_date / add_changelog_entry; those setters unwrap the conversion and panic exactly outside 0 ≤ t < 2^32 "
                   "(timestamp_setter_panics_iff, build_args_can_panic) — known finding class timestamp-setter-panic. The model is tied to the code by the "
